@@ -84,14 +84,18 @@ impl ColumnBatchBuilder {
 
     /// Finish the batch, failing if any components are missing
     pub fn build(mut self) -> Result<ColumnBatch, BatchIncomplete> {
-        let mut archetype = self.archetype.take().unwrap();
-        if archetype
+        if self
+            .archetype
+            .as_ref()
+            .unwrap()
             .types()
             .iter()
             .any(|ty| self.fill.get(&ty.id()).copied().unwrap_or(0) != self.target_fill)
         {
+            // Dropping `self` disposes of the components written so far
             return Err(BatchIncomplete { _opaque: () });
         }
+        let mut archetype = self.archetype.take().unwrap();
         unsafe {
             archetype.set_len(self.target_fill);
         }
